@@ -302,6 +302,9 @@ func (s *slice) add(v ssa.Value) {
 		s.add(x.Tuple)
 	case *ssa.Slice:
 		s.add(x.X)
+	case *ssa.Lookup:
+		s.add(x.X)
+		s.add(x.Index)
 	case *ssa.Call:
 		// arguments of pure helpers (math.Ceil, conversions); the call itself stays in the slice
 		if f := x.Call.StaticCallee(); f != nil && f.Pkg != nil && f.Pkg.Pkg.Path() == "math" {
